@@ -226,3 +226,24 @@ def run(ctx):
         ctx.violation("correspondence-broken",
                       "C15/SemW.v meaning of with/set/repeat/break/continue != real compile_ir lowering executed on the EVM", bad)
     return len(cases)
+
+
+# ---- property oracle on loops whose round count the optimiser folds (optimised vs unoptimised on the EVM) ----
+FOLDABLE_ROUNDS = [["add", ["mul", "callvalue", 0], 7], ["sub", 3, -4], ["add", 3, 4], ["and", 15, 7], ["add", 2, 1],
+                   ["sub", 5, 5], ["mul", "callvalue", 0], ["div", W - 1, 2**253], ["add", 4, 1], ["shr", 1, 12]]
+
+
+def opt_loop_probe(differ):
+    """`(repeat i start R 5 body)` with R an expression the IR optimiser folds to a literal (above the bound, equal to it,
+    below it, zero): the run-time bound check / zero-round skip must survive the fold.  Returns the differences found by
+    c15_evm.Differ (unoptimised vs optimizer.optimize vs + optimize_assembly); each one is a failing input of C15."""
+    found = []
+    for r in FOLDABLE_ROUNDS:
+        for start in (0, 2):
+            prog = ["seq", ["mstore", 0, 77],
+                    ["repeat", "i", start, r, 5, ["mstore", ["mul", 32, ["and", "i", 7]], ["add", "i", 1]]],
+                    ["return", 0, 256]]
+            d = differ.run_program(prog, [(0,), (3,)])
+            if d is not None:
+                found.append(d)
+    return found
